@@ -1,0 +1,32 @@
+//go:build verif
+
+package avc
+
+// Property C02 support (agent c02d): byte count of the AVCDecoderConfigurationRecord encoder versus its Size().
+
+// adv(sw, d): if the writer has no accumulated error now, it had none at entry and has advanced by exactly d bytes since entry.
+//@ pred adv(sw bits.SliceWriter, d int) = sw.(*bits.FixedSliceWriter).accError == nil ==> old(sw.(*bits.FixedSliceWriter).accError) == nil && sw.(*bits.FixedSliceWriter).off == old(sw.(*bits.FixedSliceWriter).off) + d
+
+// naluSum(ns, n): bytes taken by the first n parameter sets, each with a 2-byte length field.
+//@ spec rec naluSum(ns [][]byte, n int) int = ite(n <= 0, 0, naluSum(ns, n-1) + 2 + len(ns[n-1]))
+
+// What Size() counts as trailing bytes, and what EncodeSW really writes as trailing bytes.
+//@ spec sizeTrail(a *DecConfRec) int = ite(a.AVCProfileIndication == 66 || a.AVCProfileIndication == 77 || a.AVCProfileIndication == 88 || a.NoTrailingInfo, 0, 4)
+//@ spec encTrail(a *DecConfRec) int = ite((a.AVCProfileIndication == 100 || a.AVCProfileIndication == 110 || a.AVCProfileIndication == 122 || a.AVCProfileIndication == 144) && !a.NoTrailingInfo, 4, 0)
+
+//@ func (*DecConfRec).Size
+//@   requires a != nil
+//@   ensures result == uint64(7 + naluSum(a.SPSnalus, len(a.SPSnalus)) + naluSum(a.PPSnalus, len(a.PPSnalus)) + sizeTrail(a))
+//@   assigns nothing
+//@   loop 1 invariant totalSize == 7 + naluSum(a.SPSnalus, idx(1))
+//@   loop 2 invariant totalSize == 7 + naluSum(a.SPSnalus, len(a.SPSnalus)) + naluSum(a.PPSnalus, idx(2))
+
+// The encoder contract states exactly what is written (no assumption on the record); it coincides with Size() iff
+// sizeTrail(a) == encTrail(a), see boxOK@AvcCBox in package mp4 (FINDING: profiles such as 244 differ).
+//@ func (*DecConfRec).EncodeSW
+//@   requires a != nil
+//@   ensures swOKi(sw)
+//@   ensures[C02] result == nil ==> adv(sw, 7 + naluSum(a.SPSnalus, len(a.SPSnalus)) + naluSum(a.PPSnalus, len(a.PPSnalus)) + encTrail(a))
+//@   assigns sw.(*bits.FixedSliceWriter).off, sw.(*bits.FixedSliceWriter).accError, sw.(*bits.FixedSliceWriter).n, sw.(*bits.FixedSliceWriter).v, sw.(*bits.FixedSliceWriter).buf[:]
+//@   loop 1 invariant adv(sw, 6 + naluSum(a.SPSnalus, idx(1)))
+//@   loop 2 invariant adv(sw, 7 + naluSum(a.SPSnalus, len(a.SPSnalus)) + naluSum(a.PPSnalus, idx(2)))
